@@ -1,6 +1,7 @@
 import TdxModel.Proto
 import TdxModel.Drive.Client
 import TdxModel.Drive.Abi
+import TdxModel.Drive.Retry
 
 open Tdx Tdx.Proto Tdx.Drive
 
@@ -10,6 +11,7 @@ def dispatch (l : Line) : P String :=
   | "C15.prov" => c15prov l
   | "C09.parse" => c09parse l
   | "C09.ser" => c09ser l
+  | "C20.get" => c20get l
   | op => .error s!"unknown op {op}"
 
 partial def loop (h : IO.FS.Stream) (out : IO.FS.Stream) (blobs : List (Nat × Bytes)) : IO Unit := do
